@@ -149,3 +149,49 @@ def circ_dist(a, b):
     """Distance of two angles on the circle (mpf)."""
     d = abs(to_mpf(a) - to_mpf(b)) % (2 * mpmath.pi)
     return min(d, 2 * mpmath.pi - d)
+
+
+# ------------------------------------------------------------------ gravity construction (C04)
+def gravity_frame(b1, g):
+    """Documented beam-aligned frame from exact inputs (tuples of Fraction), as mpf vectors:
+    e_y = -g/|g|, e_z = (b1 - (b1.e_y) e_y)/|..|, e_x = e_y x e_z."""
+    gm, bm = mp_vec(g), mp_vec(b1)
+    gn = mpmath.sqrt(dot(gm, gm))
+    ey = tuple(-x / gn for x in gm)
+    zp = vsub(bm, vscale(dot(bm, ey), ey))
+    zn = mpmath.sqrt(dot(zp, zp))
+    ez = tuple(x / zn for x in zp)
+    ex = cross(ey, ez)
+    return {'gn': gn, 'ex': ex, 'ey': ey, 'ez': ez, 'b1': bm}
+
+
+def gravity_angles(frame, b2, delta):
+    """2theta = angle(b1, b2 + delta e_y), phi = atan2(y_d + delta, x_d), reflectometry
+    gamma = atan2(|y_d + delta|, z_d); b2 exact (Fractions), delta an mpf."""
+    bm = mp_vec(b2)
+    raised = vadd(bm, vscale(delta, frame['ey']))
+    y = dot(bm, frame['ey']) + delta
+    x = dot(bm, frame['ex'])
+    z = dot(bm, frame['ez'])
+    l2 = mpmath.sqrt(dot(bm, bm))
+    lr = mpmath.sqrt(dot(raised, raised))
+    p = mpmath.sqrt(x * x + y * y)
+    return {'tt': mp_angle(frame['b1'], raised), 'phi': mpmath.atan2(y, x), 'refl': mpmath.atan2(abs(y), z),
+            'cond': (l2 + abs(delta)) / lr if lr != 0 else mpmath.inf,
+            'cond_phi': (l2 + abs(delta)) / p if p != 0 else mpmath.inf,
+            'cond_refl': (l2 + abs(delta)) / mpmath.sqrt(y * y + z * z) if (y != 0 or z != 0) else mpmath.inf}
+
+
+def sgn(x):
+    return (x > 0) - (x < 0)
+
+
+def reduce_frac(p, q):
+    f = Fraction(p, q)
+    return [f.numerator, f.denominator]
+
+
+def angle_of_class(cls):
+    """mpf angle of a Lattice!AngleClass  [sign(cos), [p, q]]  with cos^2 = p/q."""
+    s, (p, q) = cls
+    return mpmath.acos(s * mpmath.sqrt(mpf(p) / mpf(q)))
